@@ -213,6 +213,9 @@ impl<F: Float, D: Distance<F>, N: NearestNeighbour>
             let n = &mut points[points_index];
             self.set_core_distance(n, &neighbors, observations);
             if n.core_distance.is_some() {
+                // the point that starts an expansion is listed before the points reached from it
+                processed.insert(n.index);
+                result.orderings.push(n.clone());
                 seeds.clear();
                 // Here we get a list of "density reachable" samples that haven't been processed
                 // and sort them by reachability so we can process the closest ones first.
